@@ -199,6 +199,24 @@ def run_session(job):
     d = tempfile.mkdtemp(prefix="same_")
     try:
         nodes, links, recs, reads = make_session(rnd, abs(pad))
+        many = pad == -1      # a file with thousands of short records: queries with > 1000 hits, batches of output
+        if many:
+            pad = 0
+            nodes, links, recs, reads = make_session(rnd, 0)
+            while len(recs) < 2600:
+                recs = recs + [l.replace("q", "d", 1) for l in recs]
+                reads = reads + [("d" + n[1:], s_) for n, s_ in reads]
+            seen, r2, rd2 = set(), [], []
+            for l, rd in zip(recs, reads):
+                nm = l.split("\t")[0]
+                k = 0
+                while nm in seen:
+                    k += 1
+                    nm = l.split("\t")[0] + f"x{k}"
+                seen.add(nm)
+                r2.append(nm + l[len(l.split("\t")[0]):])
+                rd2.append((nm, rd[1]))
+            recs, reads = r2, rd2
         if pad < 0:       # chunk-boundary session: a record starts exactly at 65536 (and the file is longer than that)
             while sum(len(l) + 1 for l in recs) < 70000:
                 recs = recs + [l.replace("q", "d", 1) for l in recs]
@@ -259,6 +277,7 @@ def run(ctx):
     jobs = [(f"s{k}", ctx.seed * 31337 + k, (6000 if ctx.thorough and k % 3 == 0 else 0), (60000 if ctx.thorough and k % 3 == 0 else 400)) for k in range(n)]
     # records starting exactly on a 64 KiB boundary of the uncompressed stream, in bgzip-sized (65280) and small blocks
     jobs += [(f"a{k}", ctx.seed * 977 + k, -3000, blk) for k, blk in enumerate([65280, 65280, 400] if not ctx.thorough else [65280] * 6 + [400] * 2)]
+    jobs += [(f"m{k}", ctx.seed * 613 + k, -1, blk) for k, blk in enumerate([65280] if not ctx.thorough else [65280, 4000, 65280])]
     res = pool_map(run_session, jobs, chunk=1)
     cases = [c for cs in res for c in cs]
     ctx.evaluations += 4 * len(cases)
